@@ -54,6 +54,7 @@ struct ec_ctx; int __real_ec_dec_bit_logp(struct ec_ctx *d,unsigned logp);
 #define HOOKMAX 24
 static int hook_on,hook_n,hook_logp[HOOKMAX],hook_res[HOOKMAX];
 int __wrap_ec_dec_bit_logp(struct ec_ctx *d,unsigned logp){ int r=__real_ec_dec_bit_logp(d,logp); if(hook_on&&hook_n<HOOKMAX){ hook_logp[hook_n]=(int)logp; hook_res[hook_n]=r; hook_n++; } return r; }
+static mc_ctr *c_lv_met[4][6],*c_lv_streams,*c_lv_noswitch,*c_lv_shifted,*c_lv_rate,*c_lv_rate_l2q; static mc_set *S_lvclass;
 static mc_ctr *c_nored_to[2][4],*c_nored_from[2][4],*c_red_to,*c_red_from,*c_nored_after_gap,*c_loss_adv,*c_loss_streams;
 
 static int triple_of(int toc){ return (rfc_mode(toc)*5+rfc_bandwidth(toc))*2+rfc_channels(toc)-1; }
@@ -175,11 +176,15 @@ done:
 }
 
 static void run_item(long idx,void *ctx){
-   const sitem *it=&ITEMS[idx]; corpus c; ictx I; char nm[160]; int p,ri,ch,prev=-1; (void)ctx;
+   const sitem *it=&ITEMS[idx]; corpus c; ictx I; char nm[220]; int p,ri,ch,prev=-1; (void)ctx;
    if (opt_fam>=0 && it->fam!=opt_fam) return;
    item_name(it,nm,sizeof nm);
    mc_case("encode","frozen encoder building stream [%s] item %ld",nm,idx);
    item_make(it,&c);
+   if (LVI.lv){ int sched=(LVI.lv-1)/6, off=(LVI.lv-1)%6; MC_INC(c_lv_streams);
+      if (LVI.K<0){ char n2[220]; item_name(it,n2,sizeof n2); if (MC_INC(c_lv_noswitch)<70 && it->cfg!=FAM_TRANS) mc_info("level: no switch found by the probe pass: [%s]",n2); } else if (!LVI.met) MC_INC(c_lv_shifted);
+      else { MC_INC(c_lv_met[sched][off]); mc_set_add(S_lvclass,mc_mix(mc_mix(LVI.prev_tr*64+LVI.new_tr+1,LVI.lv),it->cfg*8+it->variant));
+             if (LVI.rate_switch){ MC_INC(c_lv_rate); if (sched<=1 && off<=1) MC_INC(c_lv_rate_l2q); } } }
    memset(&I,0,sizeof I); I.it=it; I.c=&c; I.name=nm; I.mclass=modeclass(&c); I.allmono=1;
    I.pclass=malloc(sizeof(uint64_t)*(c.n+1));
    for(p=0;p<c.n;p++){ const cpkt *k=&c.p[p]; int toc=k->len?k->data[0]:0, tr=triple_of(toc), code=toc&3, pad=(code==3&&k->len>1&&(k->data[1]&0x40))?1:0, kind=(prev>=0&&prev!=tr)?(prev*32+tr+1):0, q; uint64_t h;
@@ -218,7 +223,7 @@ int main(int argc,char **argv){
    G.cfg_rates=(int)mc_arg("--cfg-rates",MC.tier?3:1); G.cfg_sigs=(int)mc_arg("--cfg-sigs",MC.tier?6:2); G.cfg_ms=(int)mc_arg("--cfg-ms",MC.tier?1000:360);
    G.trans_scheds=(int)mc_arg("--trans-scheds",MC.tier?5:2); G.trans_sigs=(int)mc_arg("--trans-sigs",MC.tier?2:1); G.trans_ms=(int)mc_arg("--trans-ms",MC.tier?400:240);
    G.ref_rates=(int)mc_arg("--ref-rates",MC.tier?3:1); G.ref_ms=(int)mc_arg("--ref-ms",MC.tier?720:360);
-   G.feat_sigs=(int)mc_arg("--feat-sigs",MC.tier?3:1); G.feat_ms=(int)mc_arg("--feat-ms",MC.tier?1800:1080); G.silkbw_ms=(int)mc_arg("--silkbw-ms",4300); G.switch_sigs=(int)mc_arg("--switch-sigs",MC.tier?2:1);
+   G.feat_sigs=(int)mc_arg("--feat-sigs",MC.tier?3:1); G.feat_ms=(int)mc_arg("--feat-ms",MC.tier?1800:1080); G.silkbw_ms=(int)mc_arg("--silkbw-ms",4300); G.switch_sigs=(int)mc_arg("--switch-sigs",MC.tier?2:1); G.level_full=(int)mc_arg("--level-full",MC.tier?1:0);
    opt_fam=(int)mc_arg("--fam",-1); opt_rfcproc=(int)mc_arg("--rfcproc",1); opt_apis=(int)mc_arg("--apis",7)|1;   /* the float API is always run: the full-scale guard needs it */
    items_build(&G);
    oc_init();
@@ -236,10 +241,15 @@ int main(int argc,char **argv){
      c_nored_from[1][2]=c_nored_from[1][3]=c_nored_from[1][1];
      c_red_to=mc_counter("redundancy_switches_to_celt"); c_red_from=mc_counter("redundancy_switches_from_celt"); c_nored_after_gap=mc_counter("nored_switches_right_after_dtx_or_loss");
      c_loss_streams=mc_counter("streams_with_a_lost_packet"); c_loss_adv=mc_counter("advisory_loss_stream_Q_below_0"); }
+   { static const char *const sn[4]={"loud_to_m30dB","loud_to_m50dB","m50dB_to_loud","silence_gap"}, *const on[6]={"m25ms","m15ms","m5ms","p5ms","p15ms","p25ms"}; int i,j; char nm[48];
+     for(i=0;i<4;i++) for(j=0;j<6;j++){ snprintf(nm,48,"level_%s_step_%s_met",sn[i],on[j]); c_lv_met[i][j]=mc_counter(nm); }
+     c_lv_streams=mc_counter("level_streams"); c_lv_noswitch=mc_counter("level_no_switch_in_probe"); c_lv_shifted=mc_counter("level_switch_moved_by_schedule");
+     c_lv_rate=mc_counter("level_silk_rate_switch_met"); c_lv_rate_l2q=mc_counter("level_silk_rate_switch_loud_to_quiet_early_met"); S_lvclass=mc_set_new(16); }
    S_states=mc_set_new(21); S_classes=mc_set_new(20); S_toc=mc_set_new(8); S_trans=mc_set_new(12); S_codes=mc_set_new(6);
    skipped=mc_par(NITEMS,run_item,NULL); (void)skipped;
    *c_states=mc_set_count(S_states); *c_dn=mc_set_count(S_classes);
    *mc_counter("toc_configs_met_of_64")=mc_set_count(S_toc); *mc_counter("transition_kinds_met")=mc_set_count(S_trans); *mc_counter("frame_code_x_padding_classes_met_of_5")=mc_set_count(S_codes);
+   *mc_counter("level_kind_x_schedule_classes_met")=mc_set_count(S_lvclass);
    *mc_counter("grid_items")=NITEMS;
    if (MC.only_item<0 && opt_fam<0 && mc_set_count(S_toc)<64 && !mc_deadline_passed()) mc_capped("the frozen encoder did not produce all 64 TOC configurations in this grid");
    return mc_finish();
